@@ -82,3 +82,7 @@ def gradient_two_time_grids(inp):
         if err > 1e-9:
             bad.append({'dt': dt, 'max_difference_to_fresh_system_object': err, 'max_gradient': float(np.abs(g_fresh).max())})
     return {'violates': bool(bad), 'detail': bad}
+
+
+# thorough tier (bounded native sweeps): (function, inputs, obligation of the open finding it reproduces or None)
+THOROUGH = [('gradient_vs_finite_difference', {}, None), ('gradient_two_time_grids', {}, None)]
